@@ -1,6 +1,7 @@
 import CJ.Lemmas.RegistrySpec
 import CJ.Lemmas.RegistryBuckets
 import CJ.Gen.RegistryConsts
+import CJ.Gen.SweepTicker
 /-!
 # C08 — registrations expire on schedule: never early, never kept past their lifetime
 
@@ -324,6 +325,12 @@ theorem never_early_unused_shipped (en : List Nat) (s : St) (hr : Reach (shipped
     tracked (sweep (shippedS en) now s).1 k :=
   never_early_unused (shippedS en) s hr now k t hk ht (shipped_limits_ordered en).2.1
     (by rw [(shipped_limits_ordered en).2.2.1]; exact hage)
+
+/-- sweeps do happen: `main` runs a goroutine whose ticker loop calls `RemoveOldRegistrations()` each
+time it fires, with a positive period (regenerated go/ast fact; the period itself — 3 minutes today —
+is not part of the property and is not pinned) -/
+theorem sweep_is_scheduled : ∃ p ∈ CJ.Gen.sweepTickerPeriodsNs, 0 < p := by
+  decide
 
 /-! ### refinement: the record the code keeps is the abstract record of the history -/
 
